@@ -23,7 +23,7 @@ def main():
                 print(f"- {b['kind']}: {b['name']}\n{b['detail'][:3000]}")
             return 0
         print('replaying', data.get('signature'), '-', data.get('what'))
-        mod.replay(data['case'])
+        mod.replay(data.get('case', data))
         return 0
     tier = os.environ.get('VERIF_TIER') or sys.argv[2]
     if tier not in ('quick', 'thorough'):
